@@ -141,3 +141,80 @@ func VerifC09_DecodeThenDecrypt(L int) {
 	c09Unchanged(data, orig, "UnmarshalBinary + Decrypt + EncryptFRMPayload")
 	verifReach("done")
 }
+
+// C05: corruption of the serialised frame. The receiver gets the sender's bytes with byte `pos` changed by an
+// arbitrary non-zero mask (pos < 0: untouched). The specification's MIC is taken over the bytes AS RECEIVED
+// (MHDR | MACPayload as on the wire); validation must succeed exactly when the carried MIC equals it.
+func VerifC05_WireCorruption(ver, mt, nFOpts, fpMode, nFRM, pos int) {
+	mtype := c03MType(mt)
+	up := specIsUplink(mtype)
+	d := newSpecData(mtype, nFOpts, fpMode, nFRM)
+	k := c05DrawKeys()
+	tx := d.phy()
+	if up {
+		verifAssert(tx.SetUplinkDataMIC(c02Version(ver), k.confFCnt, k.txDR, k.txCh, AES128Key(k.fNwkSInt), AES128Key(k.sNwkSInt)) == nil, "sender: SetUplinkDataMIC succeeds")
+	} else {
+		verifAssert(tx.SetDownlinkDataMIC(c02Version(ver), k.confFCnt, AES128Key(k.sNwkSInt)) == nil, "sender: SetDownlinkDataMIC succeeds")
+	}
+	wire, err := tx.MarshalBinary()
+	verifAssert(err == nil, "sender: MarshalBinary succeeds")
+	rxb := verifCopy(wire)
+	if pos >= len(rxb) {
+		verifReach("n/a")
+		return
+	}
+	if pos >= 0 {
+		m := verifNondetU8("corruption")
+		verifAssume(m != 0)
+		if pos == 0 {
+			verifAssume(m&0xe0 == 0) // the message type stays a data frame of the same direction (other types: other decoders)
+		}
+		if pos == 5 {
+			verifAssume(m&0x0f == 0) // FOptsLen unchanged (a changed length re-frames the payload: covered by C08 + C02)
+		}
+		rxb[pos] ^= m
+	}
+	var rx PHYPayload
+	if rx.UnmarshalBinary(verifCopy(rxb)) != nil {
+		verifReach("rejected-by-decoder")
+		return
+	}
+	rmp, ok := rx.MACPayload.(*MACPayload)
+	verifAssert(ok, "receiver: data frame")
+	// the receiver's counter: upper bits as the sender's, lower bits from the wire
+	rfcnt := d.fcnt&0xffff0000 | uint32(rxb[6]) | uint32(rxb[7])<<8
+	rmp.FHDR.FCnt = rfcnt
+	var valid bool
+	if up {
+		valid, err = rx.ValidateUplinkDataMIC(c02Version(ver), k.confFCnt, k.txDR, k.txCh, AES128Key(k.fNwkSInt), AES128Key(k.sNwkSInt))
+	} else {
+		valid, err = rx.ValidateDownlinkDataMIC(c02Version(ver), k.confFCnt, AES128Key(k.sNwkSInt))
+	}
+	verifAssert(err == nil, "receiver: MIC validation runs")
+	// specification MIC over the received bytes
+	n := len(rxb)
+	msg := rxb[:n-4]
+	addr := DevAddr{rxb[4], rxb[3], rxb[2], rxb[1]}
+	ack := rxb[5]&0x20 != 0
+	var want [4]byte
+	if up {
+		cmacF := specCMAC4(k.fNwkSInt, specBBlock(0, 0, 0, 0, addr, rfcnt, len(msg)), msg)
+		if ver == 0 {
+			copy(want[:], cmacF[0:4])
+		} else {
+			conf := verifIteU16(ack, uint16(k.confFCnt), 0)
+			cmacS := specCMAC4(k.sNwkSInt, specBBlock(conf, k.txDR, k.txCh, 0, addr, rfcnt, len(msg)), msg)
+			want = [4]byte{cmacS[0], cmacS[1], cmacF[0], cmacF[1]}
+		}
+	} else {
+		conf := uint16(0)
+		if ver != 0 {
+			conf = verifIteU16(ack, uint16(k.confFCnt), 0)
+		}
+		c := specCMAC4(k.sNwkSInt, specBBlock(conf, 0, 0, 1, addr, rfcnt, len(msg)), msg)
+		copy(want[:], c[0:4])
+	}
+	carried := [4]byte{rxb[n-4], rxb[n-3], rxb[n-2], rxb[n-1]}
+	verifAssertKnown("C05-mhdr-rfu-bits-not-authenticated", pos == 0, valid == (carried == want), "receiver: validation succeeds exactly when the MIC carried by the received bytes is the specification's MIC over the received bytes")
+	verifReach("done")
+}
